@@ -268,7 +268,7 @@ PROPS = {
     },
     "C20": {
         "proofs": ["ZlProofs.Props.C20"],
-        "corr": ["names"],
+        "corr": ["names", "thresholds"],
         "search": ["c20"],
         "trusted_base": TB_COMMON + ["the pair table in ZlProofs/Props/C20.lean and harness/pairs.go (transcribed from the property)"],
         "assumptions": [],
@@ -384,7 +384,7 @@ CLAIMS["C17"] = {"technique": "Lean 4 proof (permutation invariance of the four 
     "note": "Partial: the body-is-a-scan step is classification + search. Known findings: 8 san-order entries in known_findings.json."}
 
 CLAIMS["C20"] = {"technique": "Lean 4 proof (element-wise agreement lifts to mirrored lists; threshold implication) + kernel checks over the regenerated registry + pair search on the real lints",
-    "text": "label_pair_agree / empty_label_pair_agree / space_pair_agree / uri_ia5_pair_agree: for four pairs both rule bodies are modelled (ZlModel/Names.lean, tied to the real lints by the names correspondence) and their agreement on the same content is a theorem for every name list; mirror_agree / mirror_agree_finding / threshold_implies for all lists and limits; pairs_registered and mirror_status_sets_agree decided by the kernel over the regenerated registry and status sets. Search: each SAN/IAN pair on the same GeneralNames (every kind, generated content classes incl. opaque URIs, IPv6 literals, empty and non-IA5 values), subject/issuer pairs on mirrored DNs, RFC/CABF DNS pairs, DSA and AIA pairs on the corpus, 398/397-day and 32768/64-character threshold sweeps.",
+    "text": "label_pair_agree / empty_label_pair_agree / space_pair_agree / uri_ia5_pair_agree: for four pairs both rule bodies are modelled (ZlModel/Names.lean, tied to the real lints by the names correspondence) and their agreement on the same content is a theorem for every name list; validity_pair_implies / name_length_pair_implies: the 398/397-day and 32768/64-character companions are modelled as their bodies compute (saturating time.Sub, utf8.RuneCountInString) and error => warn is a theorem for all instants and names; mirror_agree / mirror_agree_finding / threshold_implies for all lists and limits; pairs_registered and mirror_status_sets_agree decided by the kernel over the regenerated registry and status sets. Search: each SAN/IAN pair on the same GeneralNames (every kind, generated content classes incl. opaque URIs, IPv6 literals, empty and non-IA5 values), subject/issuer pairs on mirrored DNs, RFC/CABF DNS pairs, DSA and AIA pairs on the corpus, 398/397-day and 32768/64-character threshold sweeps.",
     "note": "Partial: element agreement searched, not proved. The SAN/IAN URI-host divergence was a genuine defect, repaired by fix: fb75916."}
 
 NOT_APPLICABLE = {}
